@@ -1,5 +1,6 @@
 import EpyVerif.Model.Sim
 import EpyVerif.Model.Stats
+import EpyVerif.Model.Seq
 /-! Line-protocol driver for the simulation model at `K = Float` (bit-exact with CPython on this image). -/
 open Queue Dyn Comp Sim Bbt
 
@@ -21,6 +22,7 @@ inductive SetupStep
   | postc (inst c : Nat) (t : Float) (h : Nat)
   | infv
   | post (t : Float) (e : Elem) (h : Nat)
+  | allnodes (loc : Nat)
 
 structure Rec where
   nodes : List Node := []
@@ -33,6 +35,7 @@ structure Rec where
   perEl : List (Nat × Float × Nat) := []
   fixed : List (Nat × Float × Nat) := []
   varInf : Option (Nat × Nat) := none
+  varAt : Nat := 0
   eq : List (Float × Option (List Nat)) := []
   setup : Array SetupStep := #[]
   rng : Array (Rnd Float) := #[]
@@ -61,6 +64,12 @@ def parseAct (ws : List String) : Option (Act Float) :=
   | ["ADDEDGE", i, n, m] => some (.addEdge i.toNat! n.toInt! m.toInt!)
   | ["RMEDGE", i, n, m] => some (.rmEdge i.toNat! n.toInt! m.toInt!)
   | ["OBSERVE"] => some .observe
+  | ["ADADD", loc, c, "alone"] => some (.adAdd loc.toNat! c.toNat! .alone)
+  | ["ADADD", loc, c, "inherit", i, sc, rc] => some (.adAdd loc.toNat! c.toNat! (.inherit i.toNat! sc.toNat! rc.toNat!))
+  | ["ADADD", loc, c, "seq", i, sc, rc] => some (.adAdd loc.toNat! c.toNat! (.seq i.toNat! sc.toNat! rc.toNat!))
+  | ["ADDEL", loc, "alone"] => some (.adDel loc.toNat! .alone)
+  | ["ADDEL", loc, "inherit", i, sc, rc] => some (.adDel loc.toNat! (.inherit i.toNat! sc.toNat! rc.toNat!))
+  | ["ADDEL", loc, "seq", i, sc, rc] => some (.adDel loc.toNat! (.seq i.toNat! sc.toNat! rc.toNat!))
   | ["TRIAL", p, i, c, o] => some (.trial (parseF p) i.toNat! c.toNat! (o == "1"))
   | _ => none
 
@@ -89,7 +98,7 @@ def stateLine (r : Rec) (s : St Float (U Float) Elem) : String :=
 def mkCfg (r : Rec) : Sim.Cfg Float :=
   let kinds := r.kinds; let eff := r.effects; let hacts := r.hacts
   { comp := { kind := fun i => kinds[i]?.getD .plain, effects := fun inst c => (eff.lookup (inst, c)).getD [] },
-    perEl := r.perEl, fixed := r.fixed, varInf := r.varInf,
+    perEl := r.perEl, fixed := r.fixed, varInf := r.varInf, varAt := r.varAt,
     handlers := fun h => hacts[h]?.getD [], eq := r.eq, fmt := fbits }
 
 def tapFn (r : Rec) (ev : Fired Float Elem Loc) (s : St Float (U Float) Elem) : U Float :=
@@ -126,6 +135,8 @@ def doSetup (cfg : Sim.Cfg Float) (steps : List SetupStep) (s : St Float (U Floa
         match popF s.u with
         | none => { s with u := { s.u with err := some "rng: random() expected in initialInfectivities" } }
         | some (r, u) => let p := unord e.1 e.2; { s with u := { u with infv := (p.1, p.2, r) :: u.infv } }) s
+    | .allnodes loc =>
+      { s with u := { s.u with w := s.u.w.net.nodes.foldl (fun w n => updLocus w loc (·.add (eN n))) s.u.w } }
     | .post t e h => { s with q := (post s.q t e h).1 }) s
 
 def initState (r : Rec) : St Float (U Float) Elem :=
@@ -156,14 +167,48 @@ def main : IO Unit := do
       r := { r with hnames := r.hnames.push name, hkinds := r.hkinds.push kind, hacts := r.hacts.push acts }
     | ["PEREL", l, p, h] => r := { r with perEl := r.perEl ++ [(l.toNat!, parseF p, h.toNat!)] }
     | ["FIXED", l, p, h] => r := { r with fixed := r.fixed ++ [(l.toNat!, parseF p, h.toNat!)] }
-    | ["VARINF", l, h] => r := { r with varInf := some (l.toNat!, h.toNat!) }
+    | ["VARINF", l, h, pos] => r := { r with varInf := some (l.toNat!, h.toNat!), varAt := pos.toNat! }
     | ["EQ", m, ls] => r := { r with eq := r.eq ++ [(parseF m, if ls == "none" then none else some (nats ls))] }
     | "S_INITC" :: i :: rest =>
       let dist := rest.map (fun s => match s.splitOn ":" with | [c, p] => (c.toNat!, parseF p) | _ => (0, 0.0))
       r := { r with setup := r.setup.push (.initc i.toNat! dist) }
     | ["S_POSTC", i, c, t, h] => r := { r with setup := r.setup.push (.postc i.toNat! c.toNat! (parseF t) h.toNat!) }
+    | ["S_ALLNODES", loc] => r := { r with setup := r.setup.push (.allnodes loc.toNat!) }
+    | "RP" :: rest => r := { r with rng := r.rng.push (.perm (rest.map String.toInt!)) }
     | ["S_INFV"] => r := { r with setup := r.setup.push .infv }
     | ["S_POST", t, a, b, h] => r := { r with setup := r.setup.push (.post (parseF t) (a.toInt!, b.toInt!) h.toNat!) }
+    | "SEQ" :: toks =>
+      -- a nesting of stub processes: "(" / ")" / leaf "id:maxT:eq:k=v,k=v"; the whole line is one (top) sequence
+      let mut stack : List (List Seq.PTree) := [[]]
+      let mut info : List (Nat × Nat × Bool × List (String × Int)) := []
+      for tk in toks do
+        if tk == "(" then stack := [] :: stack
+        else if tk == ")" then
+          match stack with
+          | top :: below :: more => stack := (below ++ [Seq.PTree.seq top]) :: more
+          | _ => pure ()
+        else
+          match tk.splitOn ":" with
+          | [i, mt, e, kvs] =>
+            let kv := (kvs.splitOn ",").filterMap (fun x => match x.splitOn "=" with | [k, v] => some (k, v.toInt!) | _ => none)
+            info := (i.toNat!, mt.toNat!, e == "1", kv) :: info
+            match stack with
+            | top :: more => stack := (top ++ [Seq.PTree.leaf i.toNat!]) :: more
+            | _ => pure ()
+          | _ => pure ()
+      let tree := Seq.PTree.seq (stack.head!)
+      let find := fun (i : Nat) => info.find? (fun x => x.1 == i)
+      let mt := fun i => match find i with | some x => x.2.1 | none => 0
+      let eqf := fun i => match find i with | some x => x.2.2.1 | none => false
+      let rs := fun i => match find i with | some x => x.2.2.2 | none => []
+      let res := Seq.results rs tree []
+      let keys := (res.map (·.1)).eraseDups.toArray.qsort (· < ·)
+      IO.println s!"leaves={Seq.leaves tree} maxT={Seq.maxTime mt tree} eq={Seq.atEq eqf tree} res={keys.toList.map (fun k => (k, (res.lookup k).getD 0))}"
+    | "DECO" :: inst :: key :: dflt :: rest =>
+      -- Process.getParameters on a parameter dict: decorated key, plain key, default, KeyError
+      let d := rest.filterMap (fun s => match s.splitOn "=" with | [k, v] => some (k, v.toInt!) | _ => none)
+      let found := Seq.lookupDeco d (if inst == "-" then none else some inst) key (if dflt == "-" then none else some dflt.toInt!)
+      IO.println (match found with | some v => toString v | none => "KeyError")
     | ["STATS"] => r := { r with wantStats := true }
     | ["RF", x] => r := { r with rng := r.rng.push (.f (parseF x)) }
     | ["RI", hi, x] => r := { r with rng := r.rng.push (.i hi.toNat! x.toNat!) }
